@@ -144,6 +144,59 @@ def check_body(body, how=None, bad_condition=False):
     return {"verdict": HELD, "cov": cov, "nt": ("acc%d:" % nlints if accepted else "rej%s:" % sorted(codes)) + shape(body)}
 
 
+def run_cli_modules(case):
+    """The lint must reach the user: the real binary is given programs of 1-3 files in every order; L1800 must be shown once for
+    every braced branch that starts with `loop`, whichever file it stands in."""
+    import itertools, os, shutil, subprocess, tempfile
+    exe = common.penne_bin_path()
+    linted = "pub fn %s(x: i32) -> i32\n{\n\tvar n: i32 = x;\n\tif n == 12345\n\t{\n\t\tloop;\n\t}\n\treturn: n\n}\n"
+    plain = "pub fn %s(x: i32) -> i32\n{\n\tvar n: i32 = x;\n\tif n == 12345\n\t{\n\t\tn = 0;\n\t}\n\treturn: n\n}\n"
+    out = []
+    for nfiles in (1, 2, 3):
+        for mask in range(1 << nfiles):
+            names = ["m%d" % k for k in range(nfiles)]
+            files = {}
+            for k, nm in enumerate(names[:-1]):
+                files[nm + ".pn"] = (linted if mask >> k & 1 else plain) % ("f_" + nm)
+            last = names[-1]
+            imports = "".join('import "%s.pn";\n' % nm for nm in names[:-1])
+            body = (linted if mask >> (nfiles - 1) & 1 else plain) % "f_last"
+            calls = " + ".join(["f_last(1)"] + ["f_%s(1)" % nm for nm in names[:-1]])
+            files[last + ".pn"] = imports + body + "fn main() -> i32\n{\n\treturn: %s\n}\n" % calls
+            want = bin(mask).count("1")
+            for order in itertools.permutations(sorted(files)):
+                for sub in ("emit", "run"):
+                    d = tempfile.mkdtemp(prefix="pv-c06-")
+                    try:
+                        for fn, text in files.items():
+                            with open(os.path.join(d, fn), "w") as f:
+                                f.write(text)
+                        env = {"PATH": "/usr/bin:/bin", "HOME": d, "LC_ALL": "C", "TERM": "dumb", "PENNE_LLI": "lli-14"}
+                        args = [exe, sub, "--color=never", "--out-dir", os.path.join(d, "out")] + list(order)
+                        try:
+                            pr = subprocess.run(args, cwd=d, env=env, stdout=subprocess.PIPE, stderr=subprocess.STDOUT, timeout=120)
+                        except subprocess.TimeoutExpired:
+                            out.append({"verdict": INCONCLUSIVE, "detail": "penne did not finish within 120 s"})
+                            continue
+                        text = pr.stdout.decode("utf-8", "replace")
+                        got = text.count("[L1800]")
+                        replay = {"files": files, "order": list(order), "sub": sub, "expected_L1800": want, "observed_L1800": got,
+                                  "exit": pr.returncode, "output": text[-1200:]}
+                        cov = {"cli_invocations": 1, "cli_files_%d" % nfiles: 1}
+                        if pr.returncode != 0:
+                            out.append({"verdict": VIOLATED, "sig": "valid multi-file program not accepted by the command line tool",
+                                        "detail": text[-400:], "replay": replay, "cov": cov})
+                        elif got != want:
+                            out.append({"verdict": VIOLATED, "sig": "command line tool shows L1800 %s than the rule prescribes (%d files)"
+                                        % ("fewer times" if got < want else "more often", nfiles),
+                                        "detail": {"expected": want, "observed": got, "order": list(order)}, "replay": replay, "cov": cov})
+                        else:
+                            out.append({"verdict": HELD, "nt": "cli:%d:%d:%s" % (nfiles, mask, sub), "cov": cov})
+                    finally:
+                        shutil.rmtree(d, ignore_errors=True)
+    return out
+
+
 def st_has(body, kind):
     for st in body:
         if st[0] == kind:
@@ -159,6 +212,8 @@ def st_has(body, kind):
 
 def run_case(case):
     kind = case[0]
+    if kind == "cli_modules":
+        return run_cli_modules(case)
     if kind == "enum":
         _, size, depth, idx, n = case[:5]
         stride = case[5] if len(case) > 5 else 1
@@ -241,6 +296,8 @@ def main(tier, seed, replay=None):
             cases.append(("enum", 6, depth, idx, n, 25))
     nrand = 1500 if tier == "quick" else 40000
     cases += [("random", seed, i) for i in range(nrand)]
+    common.ensure_penne_bin()
+    cases.insert(0, ("cli_modules",))
     for r in common.run_sharded(run_case, cases):
         run.feed(r)
     run.assumptions = [
